@@ -16,7 +16,10 @@ def _seat(name):
     return rb.NAME_TO_SEAT[name.lower()]
 
 
-_RE_SEATED = re.compile(rf'^{_SEAT}\s+(.*?)\s+seated\s*$', re.I | re.S)
+# the team name is everything between ONE separator after the seat and ONE before "seated": a
+# name may itself begin or end with blanks or contain runs of them, and the bundled client
+# compares this line verbatim
+_RE_SEATED = re.compile(rf'^{_SEAT}\s(.*)\sseated\s*$', re.I | re.S)
 _RE_TEAMS = re.compile(r'^teams\s*:\s*n/s\s*:\s*"(.*)"\s*\.?\s*e/w\s*:\s*"(.*)"\s*$', re.I | re.S)
 _RE_START = re.compile(r'^start\s+of\s+board\s*$', re.I)
 _RE_HEADER = re.compile(rf'^board\s+number\s+(\d+)\s*\.\s*dealer\s+{_SEAT}\s*\.\s*'
